@@ -336,6 +336,18 @@ func addExtensionProps(t *rapid.T, c *core.Ctx, f *model.File) {
 			node.Kind = rapid.SampledFrom([]model.Kind{model.KString, model.KInteger, model.KBoolean}).Draw(t, "extkind")
 		}
 		name := fmt.Sprintf("zext%d", i)
+		// the extension may sit on the items of an array (or of an array of arrays), on a map's
+		// values or inside a nested object instead of on the property itself
+		if e.Type != "" {
+			switch rapid.IntRange(0, 5).Draw(t, "extplace") {
+			case 0:
+				node = &model.Node{Kind: model.KArray, Items: node}
+			case 1:
+				node = &model.Node{Kind: model.KArray, Items: &model.Node{Kind: model.KArray, Items: node}}
+			case 2:
+				node = &model.Node{Kind: model.KObject, Props: []model.Prop{{Name: "inner", Node: node}}}
+			}
+		}
 		f.Root.Props = append(f.Root.Props, model.Prop{Name: name, Node: node})
 		if rapid.Bool().Draw(t, "extrequired") {
 			f.Root.Required = append(f.Root.Required, name)
@@ -442,6 +454,20 @@ func genC01Tiny(t *rapid.T, c *core.Ctx) (*gen.Case, *model.File) {
 	return caseOf(cfg, []string{f.RelPath}, f), f
 }
 
+// genC01Multi: 2-4 schema files with cross-file references, mapped to packages
+// and output files in every combination (same package and same file, same
+// package and different files, different packages), under drawn options.
+func genC01Multi(t *rapid.T, c *core.Ctx) (*gen.Case, *model.File) {
+	m := genMulti(t, c, multiOpts{maxFiles: 4, uniqueDefs: true, blockPkgs: true, yamlFiles: true})
+	opt := drawOptions(t)
+	m.cfg.ExtraImports, m.cfg.OnlyModels, m.cfg.MinSizedInts, m.cfg.Tags = opt.ExtraImports, opt.OnlyModels, opt.MinSizedInts, opt.Tags
+	c.Count(fmt.Sprintf("multi.files.%d", len(m.files)))
+	if m.crossRef > 0 && m.mapped > 0 {
+		c.Count("multi.cross_reference_with_mapping")
+	}
+	return m.toCase(), m.files[0]
+}
+
 // addLocalIdentifierDefs names definitions after the identifiers the emitted
 // methods declare locally (the alias type Plain and its de-duplicated forms):
 // a schema type of that name must not be shadowed inside its own method.
@@ -530,6 +556,7 @@ func TestC01(t *testing.T) {
 		}
 	})
 	runC01Family(c, "tiny", c.N(1500, 40000), 12, genC01Tiny, evalC01, "typecheck", 300)
+	runC01Family(c, "multi", c.N(300, 8000), 13, genC01Multi, evalC01, "typecheck", 200)
 	runC01CLI(c, "mixed", c.N(500, 12000), 1, genC01Mixed)
 	runC01CLI(c, "cycles", c.N(250, 6000), 2, genC01Cycles)
 	c.Extra("feature_signatures", len(sigs))
